@@ -202,12 +202,28 @@ impl<T: Default + Reset + Traceable> Eq for Gc<T> {}
 impl<T: Default + Reset + Traceable> Gc<T> {
     /// Borrow the inner data immutably
     pub fn borrow(&self) -> Ref<'_, T> {
+        #[cfg(tsrun_verif)]
+        self.verif_check("borrow");
         unsafe { self.ptr.as_ref().data.borrow() }
     }
 
     /// Borrow the inner data mutably
     pub fn borrow_mut(&self) -> RefMut<'_, T> {
+        #[cfg(tsrun_verif)]
+        self.verif_check("borrow_mut");
         unsafe { self.ptr.as_ref().data.borrow_mut() }
+    }
+
+    /// Verification hook (H1): record a use of a handle whose slot was swept or reused.
+    #[cfg(tsrun_verif)]
+    fn verif_check(&self, op: &'static str) {
+        if self.space.upgrade().is_none() {
+            return;
+        }
+        let gc_box = unsafe { self.ptr.as_ref() };
+        if gc_box.pooled.get() || gc_box.generation.get() != self.generation {
+            verif::record_stale(gc_box.index, self.generation, gc_box.generation.get(), gc_box.pooled.get(), op);
+        }
     }
 
     /// Get the object's unique ID (pointer address)
@@ -252,6 +268,8 @@ impl<T: Default + Reset + Traceable> Clone for GcPtr<T> {
 
 impl<T: Default + Reset + Traceable> Clone for Gc<T> {
     fn clone(&self) -> Self {
+        #[cfg(tsrun_verif)]
+        self.verif_check("clone");
         // Increment ref_count (only if space is still alive)
         if let Some(_space) = self.space.upgrade() {
             let gc_box = unsafe { self.ptr.as_ref() };
@@ -338,6 +356,50 @@ pub trait Traceable: Sized + Default + Reset {
 pub trait Reset: Default {
     /// Reset object to clean state (equivalent to Default but in-place)
     fn reset(&mut self);
+}
+
+// ============================================================================
+// Verification hooks (compiled only with --cfg tsrun_verif); no behaviour change
+// ============================================================================
+
+#[cfg(tsrun_verif)]
+pub mod verif {
+    //! Thread-local log of uses of stale handles (H1) and of sweeps, read by the verification harness.
+    extern crate std;
+    use std::cell::{Cell, RefCell};
+    use std::format;
+    use std::string::String;
+    use std::vec::Vec;
+
+    std::thread_local! {
+        static STALE: RefCell<Vec<String>> = const { RefCell::new(Vec::new()) };
+        static SWEEPS: Cell<u64> = const { Cell::new(0) };
+        static SWEPT: Cell<u64> = const { Cell::new(0) };
+    }
+
+    pub(super) fn record_stale(slot: usize, handle_gen: u32, cur_gen: u32, pooled: bool, op: &'static str) {
+        STALE.with(|l| {
+            let mut l = l.borrow_mut();
+            if l.len() < 64 {
+                l.push(format!("{} slot={} handle_gen={} cur_gen={} pooled={}", op, slot, handle_gen, cur_gen, pooled));
+            }
+        });
+    }
+
+    pub(super) fn record_sweep(collected: usize) {
+        SWEEPS.with(|c| c.set(c.get() + 1));
+        SWEPT.with(|c| c.set(c.get() + collected as u64));
+    }
+
+    /// Stale uses recorded on this thread since the last call.
+    pub fn take_stale() -> Vec<String> {
+        STALE.with(|l| core::mem::take(&mut *l.borrow_mut()))
+    }
+
+    /// (number of collections, number of objects swept) on this thread since the last call.
+    pub fn take_sweeps() -> (u64, u64) {
+        (SWEEPS.with(|c| c.replace(0)), SWEPT.with(|c| c.replace(0)))
+    }
 }
 
 // ============================================================================
@@ -702,6 +764,9 @@ impl<T: Default + Reset + Traceable> Space<T> {
         // Put buffer back (empty but with capacity preserved for next GC cycle)
         to_pool.clear();
         self.sweep_buffer = to_pool;
+
+        #[cfg(tsrun_verif)]
+        verif::record_sweep(collected);
 
         collected
     }
